@@ -9,6 +9,7 @@ import (
 	"io"
 	"net"
 	"os"
+	"sort"
 	"sync"
 	"time"
 )
@@ -259,11 +260,50 @@ func (n *Net) ListenTCP(addr string) (*Listener, error) {
 	return l, nil
 }
 
+// acceptError is the transient error a real accept(2) returns when the process runs out of file
+// descriptors (EMFILE) or a connection was aborted before it was accepted: a net.Error that says
+// Temporary, after which servers are expected to keep accepting.
+type acceptError struct{}
+
+func (acceptError) Error() string   { return "accept: too many open files (simulated)" }
+func (acceptError) Timeout() bool   { return false }
+func (acceptError) Temporary() bool { return true }
+
+// InjectAcceptError makes the next Accept of this listener fail once with a temporary error.
+// It reports whether the fault could be queued.
+func (l *Listener) InjectAcceptError() bool {
+	select {
+	case l.backlog <- nil:
+		return true
+	default:
+		return false
+	}
+}
+
+// Listeners returns the open TCP listeners in address order.
+func (n *Net) Listeners() []*Listener {
+	n.mu.Lock()
+	defer n.mu.Unlock()
+	var keys []string
+	for k := range n.tcp {
+		keys = append(keys, k)
+	}
+	sort.Strings(keys)
+	var out []*Listener
+	for _, k := range keys {
+		out = append(out, n.tcp[k])
+	}
+	return out
+}
+
 // Accept implements net.Listener.
 func (l *Listener) Accept() (net.Conn, error) {
 	select {
 	case c := <-l.backlog:
 		l.n.y.Y("simnet.tcp.accept@" + l.addr.String())
+		if c == nil {
+			return nil, acceptError{}
+		}
 		return c, nil
 	case <-l.closed:
 		return nil, net.ErrClosed
